@@ -404,7 +404,12 @@ func runSecrecy(e *env) {
 			case len(ids) == 0 || x < 12:
 				line = fmt.Sprintf("new %s s%d %s", e.ptok(priv), r.Intn(len(e.seeds)), rtok([]string{"", "main"}[r.Intn(2)]))
 			case x < 30:
-				line = fmt.Sprintf("next %d %d %d", ids[r.Intn(len(ids))], r.Intn(2), 1+r.Intn(2))
+				n := uint32(1 + r.Intn(2))
+				if r.Intn(4) == 0 {
+					// a refused request (beyond the per-account limit), on locked and unlocked wallets alike
+					n = []uint32{1 << 31, 1<<31 + 1, 1<<32 - 1}[r.Intn(3)]
+				}
+				line = fmt.Sprintf("next %d %d %d", ids[r.Intn(len(ids))], r.Intn(2), n)
 			case x < 42:
 				line = "genpub -"
 			case x < 50:
